@@ -48,7 +48,7 @@ func (ex *Exec) axioms(cone []*Term) []*Term {
 				out = append(out, Eq(UF("trim", SInt, t), t))
 			}
 			// a free text that happens to equal a program literal trims like that literal
-			if x.op == "var" {
+			if x.op == "var" || strings.HasPrefix(x.op, "uf:") {
 				for _, l := range coneLits {
 					out = append(out, Implies(Eq(x, IntC(Lits.Code(l))), Eq(t, IntC(Lits.Code(strings.TrimSpace(l))))))
 				}
@@ -105,7 +105,17 @@ func (ex *Exec) axioms(cone []*Term) []*Term {
 					}
 				}
 			}
-		case "uf:toupper", "uf:tolower", "uf:quote", "uf:trimprefix", "uf:trimsuffix", "uf:boxstr":
+		case "uf:toupper", "uf:tolower":
+			out = append(out, ILe(IntC(0), t))
+			// on the literals this query mentions (and on ""), the library's own answer
+			f := strings.ToUpper
+			if t.op == "uf:tolower" {
+				f = strings.ToLower
+			}
+			for _, l := range coneLits {
+				out = append(out, Implies(Eq(t.args[0], IntC(Lits.Code(l))), Eq(t, IntC(Lits.Code(f(l))))))
+			}
+		case "uf:quote", "uf:trimprefix", "uf:trimsuffix", "uf:boxstr":
 			out = append(out, ILe(IntC(0), t))
 		}
 	}
